@@ -122,6 +122,22 @@ CHECKS["C07"] = dict(
     ref="DESIGN.md §5 C07",
 )
 
+CHECKS["C12"] = dict(
+    level="exploration",
+    text="Differential monitoring of whole generation runs: per seeded source set (XSD sets with imports/recursion/unions/nested groups, DTDs, WSDLs, regular and irregular XML/JSON samples) and option set, the reference run is compared byte for byte (file tree) and by outcome class with runs under 5 other hash seeds incl. random (fresh processes), an in-process repeat, the real `xsdata generate` CLI with flags and with a config file written by GeneratorConfig.write; on a difference the step-digest logs of the ClassContainer pipeline are aligned and the first diverging step/class is reported. `xsdata init-config` must be idempotent. Held on the executions produced.",
+    note="Trusted: codegen stand-ins in /verif/shims (toposort re-implementation sorts like upstream; jinja2 interpreter; ruff no-op, so formatting is not observed). include_header (timestamp) excluded.",
+    technique="runtime monitoring: differential oracle over repeated executions (hash seeds x processes x invocation routes) with step-digest hooks for diagnosis",
+    ref="DESIGN.md §5 C12",
+)
+
+CHECKS["C02"] = dict(
+    level="exploration",
+    text="Runtime monitoring of generate -> import -> parse (strictest settings) -> serialize on seeded schema sets of the supported fragment: schemas are compiled and instance documents (minimal/maximal/random per global element, xsi:type substitutes, nil, defaults) validated by libxml2 before use; input and output are compared in the harness's own schema-directed typed canonical form (defaults applied, prefixes/whitespace gone, leaves in the value space of their XSD type); in the order-preserving sub-fragment the output must keep element order and validate; a second generation with other output-only options must accept the same documents with the same canonical output. Held on the executions produced.",
+    note="Trusted: libxml2 XML Schema validation, vf.xsdgen.canon_doc/typed_value (built on vf.lexical), codegen stand-ins. Not in the generated fragment: substitution groups, named groups/attribute groups, xs:include, redefine. Six open known findings (xsi:nil corners, QName/default in mixed/compound content, namespace-less classes under the namespaces structure) have dedicated probes with counterfactuals; their triggers are kept out of the random population.",
+    technique="runtime monitoring: generated programs + validated instance documents through the real pipeline, reference-model (typed canonical form) oracle and schema validator as independent judges, option metamorphic relation",
+    ref="DESIGN.md §5 C02",
+)
+
 FIX_COMMITS = []  # guarded hook commits in /repo (none: all hooks are installed from the harness side)
 
 
